@@ -100,3 +100,12 @@ Fixpoint issued_count (ran : list bool) (cost : list N) : N :=
 
 Definition predict_issued (m : runmode) (prog : program) (cost : list N) : N :=
   issued_count (fst (execute m (flatten prog))) cost.
+
+(* ---- a murex function call (lang/process.go executeProcess) -------- *)
+(* fork := p.Fork(F_FUNCTION) registers the fork; if the parameters cast, the
+   body runs and Execute's deferred deregisterProcess releases the fork;
+   otherwise the fork is never executed and (after "fix: release the function ID
+   of a function call whose parameters fail to cast", fx = true) is
+   deregistered on the spot.  fx = false is the code as it was. *)
+Definition call_ops (fx : bool) (h : nat) (cast_ok : bool) (body : list op) : list op :=
+  OReg h :: (if cast_ok then body ++ [ODereg h] else if fx then [ODereg h] else []).
